@@ -25,10 +25,14 @@ type c06probe struct {
 	auth     bool   // ground truth: the opening bytes authenticate
 	postAuth string // "", "bad-address", "bad-chunk", "incomplete"
 	needsTgt bool
-	replayOf int // index of an earlier probe whose bytes are replayed (-1 none)
-	reflect  bool
-	nextTrue int // for truncated streams: the byte the valid stream would continue with (-1 none)
-	key      *Key
+	// tgtReset: the target resets its connection while the proxy drains the
+	// client (bad-chunk probes only); tgtResetAt: when (-1: not yet)
+	tgtReset   bool
+	tgtResetAt time.Duration
+	replayOf   int // index of an earlier probe whose bytes are replayed (-1 none)
+	reflect    bool
+	nextTrue   int // for truncated streams: the byte the valid stream would continue with (-1 none)
+	key        *Key
 
 	c         *simnet.TCPConn
 	connectAt time.Duration
@@ -206,9 +210,30 @@ func runC06(rc *RunCtx) {
 		}
 	}
 	// sink target: never writes, closes when it sees EOF
+	// (a third of them answer the end of the stream with a reset instead of a
+	// close: whatever happens on the target's side, the client's side is drained)
 	for k, p := range probes {
 		if p.auth {
+			p := p
+			rst := G.Draw(3) == 0
+			wait := time.Duration(G.Draw(4)) * T / 40
+			p.tgtResetAt = -1
+			if p.postAuth == "bad-chunk" && p.replayOf < 0 && G.Draw(3) == 0 {
+				p.tgtReset = true
+			}
 			startTarget(w, tgtIP, 8000+k, func(tc *targetConn) {
+				if p.tgtReset {
+					// dies on its own once the proxy has the whole (corrupt) stream, i.e.
+					// while the proxy is draining the client
+					for p.sent < len(p.wire) {
+						simrt.Sleep(T / 50)
+					}
+					simrt.Sleep(T/40 + wait)
+					tc.C.Abort()
+					p.tgtResetAt = simrt.Elapsed()
+					simrt.Fault("target_rst_during_drain")
+					return
+				}
 				buf := make([]byte, 4096)
 				for {
 					n, err := tc.C.Read(buf)
@@ -216,6 +241,12 @@ func runC06(rc *RunCtx) {
 					if err != nil {
 						break
 					}
+				}
+				if rst {
+					simrt.Sleep(wait)
+					tc.C.Abort()
+					simrt.Fault("target_rst_after_eof")
+					return
 				}
 				tc.C.Close()
 			})
@@ -316,6 +347,20 @@ func runC06(rc *RunCtx) {
 			})
 			postAuthOpen := p.auth && p.postAuth != ""
 			switch {
+			case p.tgtReset:
+				// goes on sending after the target died, then half-closes: the server has
+				// to take all of it (it may well end its own sending side meanwhile)
+				for tries := 0; p.tgtResetAt < 0 && tries < 200; tries++ {
+					simrt.Sleep(T / 50)
+				}
+				for i := 0; i < 3; i++ {
+					simrt.Sleep(T / 20)
+					write(payload(G, 1+G.Draw(2000)))
+				}
+				simrt.Sleep(T / 20)
+				p.finAt = simrt.Elapsed()
+				p.didFin = true
+				cc.CloseWrite()
 			case postAuthOpen:
 				// keep the connection open over the observation window, optionally trickling
 				if p.behav == 2 {
@@ -422,6 +467,20 @@ func runC06(rc *RunCtx) {
 			// handshake deadline (first sentence of the statement) is as good as
 			// waiting for the client (what the repository does).
 			rc.Probe("incomplete_closed_at_handshake_deadline")
+			continue
+		}
+		if p.tgtReset {
+			// The target died while the client was being drained. Ending the sending
+			// side (a FIN) is no active close; not taking what the client still sends is.
+			if freshRefusalExcused(rc, p.key, p.wire) || p.tgtResetAt < 0 {
+				continue
+			}
+			rc.Probe("postauth_target_reset_during_drain")
+			if gotRst {
+				rc.Failf("postauth-reset-after-target-died", "probe %d (%s): the target reset its connection at %v while the proxy was draining the client; the client, still open, went on sending and got a reset at %v (sent %d bytes, server read %d)", p.k, p.desc, p.tgtResetAt, rstRecv, p.sent, srvEnd.NRead)
+			} else if int(srvEnd.NRead) != p.sent {
+				rc.Failf("postauth-not-drained-after-target-died", "probe %d (%s): the target reset its connection at %v while the proxy was draining the client; the server read %d of the %d bytes the client sent before half-closing at %v", p.k, p.desc, p.tgtResetAt, srvEnd.NRead, p.sent, p.finAt)
+			}
 			continue
 		}
 		if ended && (!p.didFin || endAt < p.finAt) {
